@@ -1,10 +1,14 @@
 (** C11 — a pattern occurs in itself, and extending the host never removes an
     occurrence.  Proved on the occurrence semantics (Spec/Occ.v), for all
-    patterns, instantiations, hosts and extension histories; that an occurrence
-    is *reported* is C02 (completeness) / C05, see those files.  The port-graph
-    part of the property is decided by exploration only (DESIGN.md §6 C11). *)
+    patterns, instantiations, hosts and extension histories, and carried over to
+    what the matchers report on strings and matrices (every certified automaton,
+    and the single-pattern baseline, which also terminates): [c11_*_matcher_*],
+    [c11_*_single_*].  Port graphs: the clauses hold of the specification and are
+    refuted for the matchers (known finding D6). *)
 From PM Require Import Model.Prelude Model.Domain Model.Matchers Model.DomString Model.DomMatrix Spec.Occ Proofs.OccMono
-  Model.DomPGKeys Model.DomPG Model.DomPGPattern Properties.C05.
+  Model.DomPGKeys Model.DomPG Model.DomPGPattern Properties.C05
+  Model.Automaton Model.Traversal Cert.LabCheck Proofs.StringExact Proofs.MatrixExact Proofs.StringSingle Proofs.MatrixSingle
+  Proofs.SingleTotalDomains.
 
 Theorem c11_string_self :
   forall (sigma : N -> N) (p : spattern), occ_string p (s_inst sigma p) 0.
@@ -70,6 +74,94 @@ Proof.
   split; [rewrite El; apply incl_refl|]. split; assumption.
 Qed.
 
+(** ** the matchers themselves (strings and matrices)
+    With the exactness theorems (C02/C05) and the termination theorems (C08) the
+    two clauses carry over from the specification to what the matchers report:
+    every automaton that passes the certificates — whatever the heuristic, whatever
+    the other patterns — and the single-pattern baseline. *)
+Theorem c11_string_matcher_self :
+  forall A L rk ids pats present (sigma : N -> N) fuel ms i p,
+    s_certified A L rk ids pats present ->
+    run string_dom fuel A (s_inst sigma p) = Ok ms ->
+    nth_error pats i = Some p -> nth_error present i = Some true -> p <> [] ->
+    exists len, In (N.of_nat i, SBound 0 len) ms.
+Proof.
+  intros A L rk ids pats present sigma fuel ms i p C R Hp Hpr Hne.
+  apply (s_run_exact A L rk ids pats present _ fuel ms i p 0%N C R Hp Hpr Hne). apply occ_string_self.
+Qed.
+
+Theorem c11_string_matcher_extension :
+  forall A L rk ids pats present h a h' a' f1 f2 ms1 ms2 i p,
+    s_certified A L rk ids pats present -> s_ext h a h' a' ->
+    run string_dom f1 A h = Ok ms1 -> run string_dom f2 A h' = Ok ms2 ->
+    nth_error pats i = Some p -> nth_error present i = Some true -> p <> [] ->
+    (exists len, In (N.of_nat i, SBound a len) ms1) -> exists len, In (N.of_nat i, SBound a' len) ms2.
+Proof.
+  intros A L rk ids pats present h a h' a' f1 f2 ms1 ms2 i p C E R1 R2 Hp Hpr Hne H1.
+  apply (s_run_exact A L rk ids pats present h' f2 ms2 i p a' C R2 Hp Hpr Hne).
+  apply (occ_string_ext p h a h' a' E).
+  apply (s_run_exact A L rk ids pats present h f1 ms1 i p a C R1 Hp Hpr Hne). exact H1.
+Qed.
+
+(** the baseline: terminates and reports the pattern in its own instantiation *)
+Theorem c11_string_single_self :
+  forall (sigma : N -> N) p, p <> [] ->
+    exists fuel0, forall fuel, (fuel0 <= fuel)%nat ->
+      exists r len, single string_dom fuel (s_cvec p) (s_inst sigma p) = Ok r /\ In (SBound 0 len) r.
+Proof.
+  intros sigma p Hne. destruct (s_single_total p (s_inst sigma p)) as [f0 Hf]. exists f0. intros fuel Hle.
+  destruct (Hf fuel Hle) as [r Hr]. destruct (proj2 (s_single_exact p _ fuel r Hne Hr) 0%N) as [Hfw _].
+  destruct (Hfw (occ_string_self sigma p)) as [len Hin]. eauto.
+Qed.
+
+Theorem c11_string_single_extension :
+  forall p h a h' a' f1 f2 r1 r2, p <> [] -> s_ext h a h' a' ->
+    single string_dom f1 (s_cvec p) h = Ok r1 -> single string_dom f2 (s_cvec p) h' = Ok r2 ->
+    (exists len, In (SBound a len) r1) -> exists len, In (SBound a' len) r2.
+Proof.
+  intros p h a h' a' f1 f2 r1 r2 Hne E S1 S2 H1.
+  apply (proj2 (s_single_exact p h' f2 r2 Hne S2) a'). apply (occ_string_ext p h a h' a' E).
+  apply (proj2 (s_single_exact p h f1 r1 Hne S1) a). exact H1.
+Qed.
+
+Theorem c11_matrix_matcher_self :
+  forall A L rk ids pats present (sigma : N -> N) (fill : N) fuel ms i p,
+    m_certified A L rk ids pats present ->
+    cell_at (m_inst sigma fill p) (0%N, 0%N) <> None ->
+    run matrix_dom fuel A (m_inst sigma fill p) = Ok ms ->
+    nth_error pats i = Some p -> nth_error present i = Some true ->
+    exists a b, In (N.of_nat i, MBound (0%N, 0%N) a b) ms.
+Proof.
+  intros A L rk ids pats present sigma fill fuel ms i p C Hc R Hp Hpr.
+  apply (m_run_exact A L rk ids pats present _ fuel ms i p (0%N, 0%N) C R Hp Hpr). now apply occ_matrix_self.
+Qed.
+
+(** any of the four extension steps of the specification, given as a relation on
+    (host, anchor) pairs that preserves occurrences *)
+Theorem c11_matrix_matcher_extension :
+  forall A L rk ids pats present h s h' s' f1 f2 ms1 ms2 i p,
+    m_certified A L rk ids pats present ->
+    (occ_matrix p h s -> occ_matrix p h' s') ->
+    run matrix_dom f1 A h = Ok ms1 -> run matrix_dom f2 A h' = Ok ms2 ->
+    nth_error pats i = Some p -> nth_error present i = Some true ->
+    (exists a b, In (N.of_nat i, MBound s a b) ms1) -> exists a b, In (N.of_nat i, MBound s' a b) ms2.
+Proof.
+  intros A L rk ids pats present h s h' s' f1 f2 ms1 ms2 i p C E R1 R2 Hp Hpr H1.
+  apply (m_run_exact A L rk ids pats present h' f2 ms2 i p s' C R2 Hp Hpr). apply E.
+  apply (m_run_exact A L rk ids pats present h f1 ms1 i p s C R1 Hp Hpr). exact H1.
+Qed.
+
+Theorem c11_matrix_single_self :
+  forall (sigma : N -> N) (fill : N) p,
+    cell_at (m_inst sigma fill p) (0%N, 0%N) <> None ->
+    exists fuel0, forall fuel, (fuel0 <= fuel)%nat ->
+      exists r a b, single matrix_dom fuel (m_cvec p) (m_inst sigma fill p) = Ok r /\ In (MBound (0%N, 0%N) a b) r.
+Proof.
+  intros sigma fill p Hc. destruct (m_single_total p (m_inst sigma fill p)) as [f0 Hf]. exists f0. intros fuel Hle.
+  destruct (Hf fuel Hle) as [r Hr]. destruct (proj2 (m_single_exact p _ fuel r Hr) (0%N, 0%N)) as [Hfw _].
+  destruct (Hfw (occ_matrix_self sigma fill p Hc)) as [a [b Hin]]. eauto.
+Qed.
+
 Example c11_example :
   occ_stringb [Lit 97; Var 1; Var 1]%N (s_inst (fun _ => 98%N) [Lit 97; Var 1; Var 1]%N) 0 = true
   /\ s_ext [97; 98; 98]%N 0 ([99] ++ ([97; 98; 98] ++ [97]))%N 1.
@@ -85,6 +177,13 @@ Print Assumptions c11_matrix_rows_appended.
 Print Assumptions c11_matrix_rows_prepended.
 Print Assumptions c11_matrix_rows_widened.
 Print Assumptions c11_matrix_columns_prepended.
+Print Assumptions c11_string_matcher_self.
+Print Assumptions c11_string_matcher_extension.
+Print Assumptions c11_string_single_self.
+Print Assumptions c11_string_single_extension.
+Print Assumptions c11_matrix_matcher_self.
+Print Assumptions c11_matrix_matcher_extension.
+Print Assumptions c11_matrix_single_self.
 Print Assumptions c11_portgraph_self_spec.
 Print Assumptions c11_portgraph_extension_spec.
 Print Assumptions c11_portgraph_matcher_extension_refuted.
